@@ -15,8 +15,9 @@
 (*        lane must now be the documented result                           *)
 (*  {"k":"link","to":c}                       c subscribes (empty replica) *)
 (*  {"k":"obs","to":c,"op":"upd"|"rem"|"clr","c":key,"v":value}            *)
-(*  {"k":"quiet"[,"map":[v1..vnk]]}   everything drained; optionally the   *)
-(*                                    lane's real map (MapLane::get_map)   *)
+(*  {"k":"quiet"[,"of":[names]][,"map":[v1..vnk]]}   the lane's queues and *)
+(*        those of the named consumers (default: all) are drained;         *)
+(*        optionally the lane's real map (MapLane::get_map)                *)
 (* Any other event (the check writes {"k":"bad",...} for a panic, a key    *)
 (* text outside the key space, an unknown value) is never enabled.         *)
 (***************************************************************************)
@@ -50,7 +51,7 @@ Step(e) ==
        /\ p' = PObs(p, e.to, e.op, IF Has(e, "c") THEN e.c ELSE 0, IF Has(e, "v") THEN e.v ELSE 0)
        /\ p'.cons[e.to].ok
     \/ /\ e.k = "quiet"
-       /\ PQuiet(p)
+       /\ \A c \in (IF Has(e, "of") THEN SeqSet(e.of) ELSE DOMAIN p.cons) : c \in DOMAIN p.cons /\ PConverged(p, c)
        /\ Has(e, "map") => \A c \in PKeys(p) : e.map[c] = p.ref[c]
        /\ p' = p
 
